@@ -73,7 +73,7 @@ N_SWEEP = len(SWEEP_CONFIGS) * (len(SWEEP_OPS) ** 2)
 
 
 def plan(tier):
-    extra = 30000 if tier == "quick" else 400000
+    extra = 18000 if tier == "quick" else 400000
     return {"cases": N_SWEEP // 8 + extra if tier == "quick" else N_SWEEP + extra,
             "shards": 8 if tier == "quick" else 14, "min_nontrivial": 500,
             "timeout": 600 if tier == "quick" else 2400,
